@@ -1,0 +1,14 @@
+//go:build verif
+
+package attachment
+
+import "net"
+
+// This file is compiled only with the build tag "verif".
+
+// VerifServeConn runs, on a caller-supplied connection, exactly what Run() starts for
+// every accepted connection. It lets a monitor drive the server over net.Pipe, where
+// each client write is one server read.
+func VerifServeConn(g *GoJT808, c net.Conn) {
+	newConnection(c, g.opts.ActiveSafetyType, g.opts.DataHandleFunc, g.opts.FileEventerFunc()).run()
+}
